@@ -331,6 +331,31 @@ func solveAll1(jobs []*job, timeoutS int, cross bool, workers int) {
 	runPool(harder, max(1, workers/len(solvers)), func(j *job) {
 		j.res = raceSolvers(j.path, timeoutS)
 	})
+	// last resort against load on the machine: a handful of undecided obligations are retried one at a time, with
+	// nothing else running and twice the timeout. (When many are undecided the tree is broken anyway.)
+	var undecided []*job
+	for _, j := range jobs {
+		if !j.ob.MustSat && (j.res.Status == "timeout" || j.res.Status == "unknown") {
+			undecided = append(undecided, j)
+		}
+	}
+	if len(undecided) > 0 && len(undecided) <= 8 {
+		for _, j := range undecided {
+			r := raceSolvers(j.path, timeoutS*2)
+			if r.Status == "unsat" {
+				r.Solver += "+retry-alone"
+				j.res = r
+			} else if j.ob.SMTAlt != "" {
+				ap := strings.TrimSuffix(j.path, ".smt2") + ".altfull.smt2"
+				if os.WriteFile(ap, []byte(j.ob.SMTAlt), 0o644) == nil {
+					if r := raceSolvers(ap, timeoutS*2); r.Status == "unsat" {
+						r.Solver += "+nohyps+retry-alone"
+						j.res = r
+					}
+				}
+			}
+		}
+	}
 	if cross {
 		runPool(jobs, max(1, workers/2), func(j *job) {
 			if j.res.Status == "unsat" && j.res.Solver != "trivial" && !j.ob.MustSat {
